@@ -15,6 +15,7 @@ Record case := {
                                    raw value -> tagged result ("int:12", "list:['a', 'b']", "s:text") *)
   k_fs : list fs_row;           (* find_system table *)
   k_gdraise : list str;         (* ids for which get_data raises *)
+  k_gdempty : list str;         (* ids whose data is the empty tree {} *)
   k_files : list str;           (* regular files that exist *)
   k_uri : str
 }.
@@ -55,7 +56,7 @@ Definition fs_of (k : case) (p : str) : fsr :=
 
 Definition run_handle (k : case) (r : rp) (x : ctx) (req_uri : str) : hobs :=
   let '(log, _, res) := handle false (transform_of k) (table_find_system (k_fs k))
-                               (table_get_data (k_gdraise k)) (fs_of k) (k_cfg k) r x in
+                               (table_get_data (k_gdraise k) (k_gdempty k)) (fs_of k) (k_cfg k) r x in
   {| h_calls := log; h_class := class_of res;
      h_tc := match res with
              | RContent _ (Some tc) => Some (keys_of tc, t_id tc, t_data tc, req_uri)
@@ -198,13 +199,13 @@ Definition decode_ttable (x : sx) : option (option (list (str * str))) :=
 
 Definition decode (x : sx) : option (case * obs) :=
   match x with
-  | L [tf; o2; cfg; B tpre; B tsuf; ttb; L fst; L gdr; L files; B uri; io] =>
+  | L [tf; o2; cfg; B tpre; B tsuf; ttb; L fst; L gdr; L gde; L files; B uri; io] =>
       obind (asBool tf) (fun tf => obind (asBool o2) (fun o2 => obind (decode_config cfg) (fun cfg =>
       obind (decode_ttable ttb) (fun ttb =>
-      obind (omap decode_fs_row fst) (fun fst => obind (omap asStr gdr) (fun gdr =>
+      obind (omap decode_fs_row fst) (fun fst => obind (omap asStr gdr) (fun gdr => obind (omap asStr gde) (fun gde =>
       obind (omap asB files) (fun files => obind (asObs io) (fun io =>
       Some ({| k_tftp := tf; k_old2f := o2; k_cfg := cfg; k_tpre := tpre; k_tsuf := tsuf; k_ttable := ttb;
-               k_fs := fst; k_gdraise := gdr; k_files := files; k_uri := uri |}, io)))))))))
+               k_fs := fst; k_gdraise := gdr; k_gdempty := gde; k_files := files; k_uri := uri |}, io))))))))))
   | _ => None
   end.
 
